@@ -477,6 +477,9 @@ fn write_function(
             context.build_function_template_body(id)?
         };
 
+        // The function has to be defined by the end of the module
+        context.record_function_call(id, call_location);
+
         Ok(TypedExpression::Value(
             ir::Expression::Call(id, call_type, param_values),
             return_type,
@@ -533,6 +536,9 @@ fn write_method(
             // Now we have to make the actual instance of that template
             context.build_function_template_body(id)?
         };
+
+        // The method has to be defined by the end of the module
+        context.record_function_call(id, call_location);
 
         Ok(TypedExpression::Value(
             ir::Expression::Call(id, ir::CallType::MethodExternal, param_values),
